@@ -127,19 +127,26 @@ structure Db (R : Type) where
   pending : Option (List R)      -- open transaction's view
 
 inductive SqlStmt (R : Type) where
-  | ddl                 -- CREATE TABLE IF NOT EXISTS (auto-commits, changes no row)
+  | ddl                 -- a statement that changes no row and starts no transaction (PRAGMA ...)
+  | script              -- `executescript(...)` of row-free DDL: COMMITS a pending transaction first, then changes no row
   | delete              -- DELETE FROM checkpoint   (opens the transaction)
   | insert (row : R)
   | commit
 
 def sqlStep {R : Type} (db : Db R) : SqlStmt R → Db R
   | .ddl => db
+  | .script => { committed := db.pending.getD db.committed, pending := none }
   | .delete => { db with pending := some [] }
   | .insert row => { db with pending := some ((db.pending.getD db.committed) ++ [row]) }
   | .commit => { committed := db.pending.getD db.committed, pending := none }
 
 /-- the statements of `save_calibrator_state` (repaired order: DELETE inside the transaction) -/
-def sqlSaveStmts {R : Type} (row : R) : List (SqlStmt R) := [.ddl, .delete, .insert row, .commit]
+def sqlSaveStmts {R : Type} (row : R) : List (SqlStmt R) := [.ddl, .script, .delete, .insert row, .commit]
+
+/-- a statement sequence as observed on the real save (`harness/props/c06.py` logs every call on the cursor and the connection):
+0 = execute of a row-free statement, 4 = executescript, 1 = DELETE, 2 = INSERT of the new row, 3 = commit -/
+def sqlOfCodes {R : Type} (row : R) (codes : List Nat) : List (SqlStmt R) :=
+  codes.map (fun c => match c with | 1 => .delete | 2 => .insert row | 3 => .commit | 4 => .script | _ => .ddl)
 
 /-- run the save; `failAt = some i` raises at statement `i` (before it takes effect) → `rollback()` -/
 def sqlRun {R : Type} (db : Db R) (stmts : List (SqlStmt R)) (failAt : Option Nat) : Db R :=
